@@ -15,7 +15,7 @@ pub mod nitrogql_error { pub struct PositionedError { pub x: u8 } }
 //@ end
 //@ inline nitrogql_checker crates/checker/src mods=common,error,types,type_system_checker,operation_checker all=nitrogql_ast,graphql_type_system,nitrogql_semantics,nitrogql_checker,nitrogql_error
 //@   rewrite_re T-DROP 1 "(?s)impl From<CheckError> for PositionedError \\{.*?\\n\\}\\n" => "/* impl From<CheckError> for PositionedError dropped (nitrogql_error not inlined) */\n"
-//@   labelled_blocks
+//@   labelled_blocks is_mismatch:bool null_is_allowed:bool
 //@   rewrite T11 1 "        mut self,\n" => "        self,\n"
 //@   rewrite T12 * "r#type:" => "type_:"
 //@   rewrite T12 * "r#enum:" => "enum_:"
